@@ -97,6 +97,60 @@ theorem C06_roundtrip_encoded (kitty : Bool) (m : FaceModify) (h : ModOk m)
   rw [payload_faceModify ⟨.trueColor, kitty⟩ m hne]
   exact C06_roundtrip_modify m h hne
 
+/-! ## Round trip of a whole `Face` -/
+
+theorem reverse_step (fm : FMod) (rest : List (List Nat)) : sgrFaceStep fm [55] rest = (fm, rest) := by
+  have n : numberDecode [55] = some 7 := by decide
+  have s : splitBy 58 [55] = [[55]] := by decide
+  simp [sgrFaceStep, n, s]
+
+theorem flag_closed (on : Bool) (g : List Nat) (upd : FMod → FMod)
+    (h : ∀ fm rest, sgrFaceStep fm g rest = (upd fm, rest)) :
+    DClosed (flagChunk on g) (fun fm => if on then upd fm else fm) := by
+  cases on
+  · exact DClosed.nil
+  · exact DClosed.single g _ (by intro fm rest; simp [h])
+
+theorem underChunk_closed (k : Nat) :
+    DClosed (underChunk k) (fun fm => if 1 ≤ k ∧ k ≤ 5 then { fm with underline := some k } else fm) := by
+  cases k with
+  | zero => intro fm rest; simp [underChunk]
+  | succ k =>
+    have := underline_closed (some (k + 1))
+    have e : (1 ≤ k + 1 ∧ k + 1 ≤ 5) ↔ (k + 1 ≤ 5) := by omega
+    simpa [e] using this
+
+/-- **C06, round trip of a face.** For every face with opaque 8-bit colours the `Face` command the
+encoder writes in true-colour mode is read back as a modification that, applied to ANY face, yields
+exactly the written one — colours, underline style, bold, italic, blink, strike — except `REVERSE`,
+which a face-modification record cannot express. -/
+theorem C06_roundtrip_face (f : Face) (hfg : colorOk f.fg) (hbg : colorOk f.bg) (hu : f.under ≤ 5) (g : DFace) :
+    apply (sgrFace (joinSemi (faceChunks f .trueColor))) g =
+      { fg := f.fg.map fun c => ⟨c.r, c.g, c.b, 255⟩, bg := f.bg.map fun c => ⟨c.r, c.g, c.b, 255⟩,
+        under := f.under, bold := f.bold, italic := f.italic, blink := f.blink, reverse := false,
+        strike := f.strike } := by
+  have hne : faceChunks f .trueColor ≠ [] := by simp [faceChunks]
+  have h0 : DClosed [[48]] (fun _ => ({ reset := true } : FMod)) :=
+    DClosed.single [48] _ (by intro fm rest; simp [reset_step])
+  have h1 := h0.append (optColor_closed f.fg .fg hfg)
+  have h2 := h1.append (optColor_closed f.bg .bg hbg)
+  have h3 := h2.append (underChunk_closed f.under)
+  have h4 := h3.append (flag_closed f.bold [49] _ bold_on)
+  have h5 := h4.append (flag_closed f.italic [51] _ italic_on)
+  have h6 := h5.append (flag_closed f.blink [53] _ blink_on)
+  have h7 := h6.append (flag_closed f.reverse [55] _ reverse_step)
+  have hcl := h7.append (flag_closed f.strike [57] _ strike_on)
+  unfold sgrFace
+  rw [splitBy_joinSemi _ hne (faceChunks_good f .trueColor).no59]
+  have := hcl.eval {}
+  simp only [faceChunks] at this ⊢
+  rw [this]
+  obtain ⟨fg, bg, under, bold, italic, blink, reverse, strike⟩ := f
+  simp only at hu
+  cases fg <;> cases bg <;> cases bold <;> cases italic <;> cases blink <;> cases reverse <;> cases strike <;>
+    (rcases under with _ | _ | _ | _ | _ | _ | n <;>
+      (try simp [Function.comp, updColor, setColor, SurfModel.Sgr.apply, setFlag]) <;> (try omega))
+
 /-! ## SGR semantics of the decoder and of `FaceModify::apply` -/
 
 /-- A well-formed SGR parameter: every parameter the face-modification record can express, in every
